@@ -45,6 +45,12 @@ Ltac split_ifs :=
          | |- context [if ?c then _ else _] => let E := fresh "E" in destruct c eqn:E
          end.
 
+Ltac eqb_subst :=
+  repeat match goal with
+         | H : (_ =? _) = true |- _ => apply Z.eqb_eq in H
+         | H : (_ =? _) = false |- _ => apply Z.eqb_neq in H
+         end; subst.
+
 Lemma ser_step_ref k c t x r i :
   ser_step (mkser k c t x r) i = ser_ref k c t x r (si_valid i) (si_v i) (si_pulse i).
 Proof.
@@ -53,6 +59,188 @@ Proof.
   pose proof (prep1_bit (Z.land t 1) (land1_range t)) as Hb.
   pose proof (prep1_bit 0 ltac:(lia)) as H0. pose proof (prep1_bit 1 ltac:(lia)) as H1.
   split_ifs; cbn [upd UARTSerializer_o_tx UARTSerializer_o_ready negb] in *;
-    rewrite ?Hb, ?H0, ?H1; try reflexivity; try discriminate; try lia.
-Show. 
-Abort.
+    rewrite ?Hb, ?H0, ?H1; try reflexivity; try discriminate; eqb_subst; try reflexivity; try lia.
+Qed.
+
+(* ---- one baud interval: g edges without pulse, then the edge with the pulse *)
+Lemma split_pulse ins g rest :
+  map si_pulse ins = (repeat 0 g ++ [1]) ++ rest ->
+  exists a i b, ins = (a ++ [i]) ++ b /\ map si_pulse a = repeat 0 g /\ si_pulse i = 1 /\ map si_pulse b = rest.
+Proof.
+  intros H. apply map_eq_app in H as (ai & b & -> & Hai & Hb).
+  apply map_eq_app in Hai as (a & i1 & -> & Ha & Hi).
+  destruct i1 as [|i [|? ?]]; cbn in Hi; try discriminate. injection Hi as Hi.
+  exists a, i, b; auto.
+Qed.
+
+Lemma phase_gen (s m nx : ser) a i g :
+  (forall j, si_pulse j = 0 -> ser_step s j = m) -> (forall j, si_pulse j = 0 -> ser_step m j = m) ->
+  (forall j, si_pulse j = 1 -> ser_step s j = nx) -> (forall j, si_pulse j = 1 -> ser_step m j = nx) ->
+  map si_pulse a = repeat 0 g -> si_pulse i = 1 ->
+  runs ser_step s (a ++ [i]) = repeat m g ++ [nx] /\ final ser_step s (a ++ [i]) = nx.
+Proof.
+  intros Hs0 Hm0 Hs1 Hm1 Ha Hi.
+  assert (Hm : forall g a, map si_pulse a = repeat 0 g ->
+             runs ser_step m (a ++ [i]) = repeat m g ++ [nx] /\ final ser_step m (a ++ [i]) = nx).
+  { clear a g Ha. induction g as [|g IH]; intros [|j a] Ha; cbn in Ha; try discriminate.
+    - cbn. rewrite Hm1 by assumption. auto.
+    - injection Ha as Hj Ha. cbn [app runs final fold_left repeat]. rewrite Hm0 by assumption.
+      destruct (IH a Ha) as [R F]. unfold final in F. rewrite R, F. auto. }
+  destruct g as [|g]; destruct a as [|j a]; cbn in Ha; try discriminate.
+  - cbn. rewrite Hs1 by assumption. auto.
+  - injection Ha as Hj Ha. cbn [app runs final fold_left repeat]. rewrite Hs0 by assumption.
+    destruct (Hm g a Ha) as [R F]. unfold final in F. rewrite R, F. auto.
+Qed.
+
+Lemma repeat_snoc {A} (x : A) g : repeat x g ++ [x] = repeat x (S g).
+Proof. now rewrite <- repeat_cons. Qed.
+
+Lemma z1_ne0 : (1 =? 0) = false. Proof. reflexivity. Qed.
+
+(* the four kinds of interval *)
+Lemma phase_wait c t a i g :
+  map si_pulse a = repeat 0 g -> si_pulse i = 1 ->
+  runs ser_step (mkser 2 c t 1 0) (a ++ [i]) = repeat (mkser 2 c t 1 0) g ++ [mkser 3 c t 1 0]
+  /\ final ser_step (mkser 2 c t 1 0) (a ++ [i]) = mkser 3 c t 1 0.
+Proof.
+  apply phase_gen; intros j Hj; rewrite ser_step_ref, Hj; reflexivity.
+Qed.
+
+Lemma phase_start c t x a i g :
+  map si_pulse a = repeat 0 g -> si_pulse i = 1 ->
+  runs ser_step (mkser 3 c t x 0) (a ++ [i]) = repeat (mkser 3 7 t 0 0) g ++ [mkser 4 7 t 0 0]
+  /\ final ser_step (mkser 3 c t x 0) (a ++ [i]) = mkser 4 7 t 0 0.
+Proof.
+  apply phase_gen; intros j Hj; rewrite ser_step_ref, Hj; reflexivity.
+Qed.
+
+Lemma phase_bit c t x a i g :
+  map si_pulse a = repeat 0 g -> si_pulse i = 1 ->
+  let nx := if c =? 0 then mkser 5 c (Z.shiftr t 1) (Z.land t 1) 0 else mkser 4 (c - 1) (Z.shiftr t 1) (Z.land t 1) 0 in
+  runs ser_step (mkser 4 c t x 0) (a ++ [i]) = repeat (mkser 4 c t (Z.land t 1) 0) g ++ [nx]
+  /\ final ser_step (mkser 4 c t x 0) (a ++ [i]) = nx.
+Proof.
+  intros Ha Hi nx. subst nx.
+  apply phase_gen; auto; intros j Hj; rewrite ser_step_ref, Hj; unfold ser_ref; cbn [Z.eqb Pos.eqb];
+    destruct (c =? 0); reflexivity.
+Qed.
+
+Lemma phase_stop c t x a i g :
+  map si_pulse a = repeat 0 g -> si_pulse i = 1 ->
+  runs ser_step (mkser 5 c t x 0) (a ++ [i]) = repeat (mkser 5 c t 1 0) g ++ [mkser 0 c t 1 0]
+  /\ final ser_step (mkser 5 c t x 0) (a ++ [i]) = mkser 0 c t 1 0.
+Proof.
+  apply phase_gen; intros j Hj; rewrite ser_step_ref, Hj; reflexivity.
+Qed.
+
+(* the data bits the shift register presents, in order *)
+Fixpoint bits_from (t : Z) (m : nat) : list Z :=
+  match m with O => [] | S m' => Z.land t 1 :: bits_from (Z.shiftr t 1) m' end.
+
+Lemma pulses_cons g gs : pulses (g :: gs) = (repeat 0 g ++ [1]) ++ pulses gs.
+Proof. reflexivity. Qed.
+
+Lemma map_repeat {A B} (f : A -> B) x g : map f (repeat x g) = repeat (f x) g.
+Proof. induction g; cbn; congruence. Qed.
+
+Lemma data_phase gs : forall c t x ins,
+  Z.of_nat (length gs) = c + 1 -> map si_pulse ins = pulses gs ->
+  map s_tx (runs ser_step (mkser 4 c t x 0) ins) = hold (map S gs) (bits_from t (length gs))
+  /\ map s_ready (runs ser_step (mkser 4 c t x 0) ins) = repeat 0 (length ins)
+  /\ (gs <> [] -> exists t' x', final ser_step (mkser 4 c t x 0) ins = mkser 5 0 t' x' 0).
+Proof.
+  induction gs as [|g gs IH]; intros c t x ins Hc Hp.
+  - destruct ins; cbn in Hp; try discriminate. cbn. repeat split; auto. congruence.
+  - rewrite pulses_cons in Hp. apply split_pulse in Hp as (a & i & b & -> & Ha & Hi & Hb).
+    destruct (phase_bit c t x a i g Ha Hi) as [R F].
+    rewrite runs_app, F, R, !map_app, !map_repeat. cbn [map length hold bits_from].
+    cbn [length] in Hc.
+    assert (La : length a = g) by (rewrite <- (map_length si_pulse), Ha; apply repeat_length).
+    destruct (c =? 0) eqn:E.
+    + apply Z.eqb_eq in E. destruct gs; [|cbn [length] in Hc; lia].
+      destruct b; cbn in Hb; try discriminate.
+      cbn [runs map s_tx s_ready mkser hold bits_from length app]. rewrite !app_nil_r, repeat_snoc.
+      rewrite F. subst c.
+      repeat split; eauto.
+      rewrite app_length, La. cbn [length]. rewrite repeat_snoc. f_equal. lia.
+    + apply Z.eqb_neq in E.
+      destruct (IH (c - 1) (Z.shiftr t 1) (Z.land t 1) b ltac:(lia) Hb) as (T & Rd & Fn).
+      rewrite T, Rd. cbn [s_tx s_ready mkser]. rewrite <- app_assoc. cbn [app].
+      repeat split.
+      * rewrite <- repeat_snoc, <- app_assoc. reflexivity.
+      * rewrite !app_length, La. cbn [length]. rewrite repeat_snoc, <- repeat_app. f_equal. lia.
+      * intros _. rewrite final_app, F. apply Fn. destruct gs; [cbn in Hc; lia | discriminate].
+Qed.
+
+Lemma bits_from_8 b : bits_from b 8 = map (bit b) [0; 1; 2; 3; 4; 5; 6; 7].
+Proof.
+  cbn [bits_from map]. unfold bit. rewrite !Z.shiftr_shiftr by lia. cbn [Z.add Pos.add Pos.succ].
+  rewrite Z.shiftr_0_r. reflexivity.
+Qed.
+
+(* ser_frame: from acceptance in the READY state, for ANY eleven baud intervals (any phase g0, any spacing, gap 0 included),
+   whatever valid / v do during the frame:
+   the tx wire after each edge is  1 (acceptance edge), 1 for the g0+1 edges up to the first pulse, then start 0, b0..b7, stop 1,
+   each held for exactly one baud interval (g_k + 1 clocks), then 1; ready is low from the acceptance edge until the edge
+   after the stop interval, where the serializer is back in the READY state. *)
+Lemma ser_frame_lemma b cnt txv gaps i0 ins il :
+  length gaps = 11%nat -> si_valid i0 <> 0 -> si_v i0 = b -> map si_pulse ins = pulses gaps ->
+  let tr := runs ser_step (ser_ready_state cnt txv) (i0 :: ins ++ [il]) in
+  map s_tx tr = 1 :: hold (map S gaps) (1 :: frame8n1 b) ++ [1]
+  /\ map s_ready tr = 0 :: repeat 0 (length ins) ++ [1]
+  /\ exists c t, final ser_step (ser_ready_state cnt txv) (i0 :: ins ++ [il]) = ser_ready_state c t.
+Proof.
+  intros Hlen Hv Hb Hp tr. subst tr.
+  change (ser_ready_state cnt txv) with (mkser 1 cnt txv 1 1).
+  assert (S0 : ser_step (mkser 1 cnt txv 1 1) i0 = mkser 2 cnt b 1 0).
+  { rewrite ser_step_ref. unfold ser_ref. cbn [Z.eqb Pos.eqb]. apply Z.eqb_neq in Hv. now rewrite Hv, Hb. }
+  change (final ser_step (mkser 1 cnt txv 1 1) (i0 :: ins ++ [il])) with (final ser_step (ser_step (mkser 1 cnt txv 1 1) i0) (ins ++ [il])).
+  cbn [runs]. rewrite S0. clear S0 Hv Hb i0.
+  destruct gaps as [|g0 [|g1 gs]]; try discriminate Hlen.
+  rewrite !pulses_cons in Hp.
+  apply split_pulse in Hp as (a0 & i0 & r0 & -> & Ha0 & Hi0 & Hp).
+  apply split_pulse in Hp as (a1 & i1 & r1 & -> & Ha1 & Hi1 & Hp).
+  assert (Hgs : exists gd g10, gs = gd ++ [g10] /\ length gd = 8%nat).
+  { exists (removelast gs), (last gs 0%nat). split.
+    - apply app_removelast_last. destruct gs; discriminate.
+    - cbn in Hlen. pose proof (app_removelast_last (l := gs) 0%nat ltac:(destruct gs; discriminate)) as E.
+      apply (f_equal (@length nat)) in E. rewrite app_length in E. cbn in E. lia. }
+  destruct Hgs as (gd & g10 & -> & Hgd).
+  unfold pulses in Hp. rewrite map_app, concat_app in Hp. fold (pulses gd) in Hp. cbn [map concat] in Hp.
+  rewrite app_nil_r in Hp.
+  apply map_eq_app in Hp as (bd & bs & -> & Hbd & Hbs).
+  rewrite <- (app_nil_r (repeat 0 g10 ++ [1])) in Hbs.
+  apply split_pulse in Hbs as (a10 & i10 & r10 & -> & Ha10 & Hi10 & Hr10).
+  destruct r10; [|discriminate]. rewrite app_nil_r.
+  destruct (phase_wait cnt b a0 i0 g0 Ha0 Hi0) as [R0 F0].
+  destruct (phase_start cnt b 1 a1 i1 g1 Ha1 Hi1) as [R1 F1].
+  destruct (data_phase gd 7 b 0 bd ltac:(lia) Hbd) as (Td & Rd & Fd).
+  destruct Fd as (t' & x' & Fd); [destruct gd; discriminate|].
+  destruct (phase_stop 0 t' x' a10 i10 g10 Ha10 Hi10) as [R10 F10].
+  assert (L0 : length a0 = g0) by (rewrite <- (map_length si_pulse), Ha0; apply repeat_length).
+  assert (L1 : length a1 = g1) by (rewrite <- (map_length si_pulse), Ha1; apply repeat_length).
+  assert (L10 : length a10 = g10) by (rewrite <- (map_length si_pulse), Ha10; apply repeat_length).
+  assert (A4 : forall A B C D E : list ser_in, (A ++ B ++ C ++ D) ++ E = A ++ B ++ C ++ D ++ E)
+    by (intros; now rewrite <- !app_assoc).
+  rewrite A4. clear A4.
+  rewrite (runs_app _ _ (a0 ++ [i0])), (final_app _ _ (a0 ++ [i0])), F0, R0.
+  rewrite (runs_app _ _ (a1 ++ [i1])), (final_app _ _ (a1 ++ [i1])), F1, R1.
+  rewrite (runs_app _ _ bd), (final_app _ _ bd), Fd.
+  rewrite (runs_app _ _ (a10 ++ [i10])), (final_app _ _ (a10 ++ [i10])), F10, R10.
+  cbn [runs final fold_left]. rewrite ser_step_ref. unfold ser_ref. cbn [Z.eqb].
+  cbn [map]. rewrite !map_app, Td, Rd, !map_repeat. cbn [map s_tx s_ready mkser].
+  assert (Hh : forall ds xs d x, length ds = length xs -> hold (ds ++ [d]) (xs ++ [x]) = hold ds xs ++ repeat x d).
+  { induction ds as [|d0 ds IH]; intros [|y xs] d x Hl; cbn in Hl; try discriminate; cbn [hold app].
+    - now rewrite app_nil_r.
+    - rewrite IH by lia. now rewrite app_assoc. }
+  repeat split.
+  - f_equal. rewrite !repeat_snoc. unfold frame8n1, frame_head. rewrite Hgd, bits_from_8.
+    cbn [map hold app].
+    change [bit b 0; bit b 1; bit b 2; bit b 3; bit b 4; bit b 5; bit b 6; bit b 7; 1]
+      with ([bit b 0; bit b 1; bit b 2; bit b 3; bit b 4; bit b 5; bit b 6; bit b 7] ++ [1]).
+    rewrite Hh by (rewrite map_length, Hgd; reflexivity).
+    rewrite <- !app_assoc, <- (repeat_snoc 1 (S g10)). reflexivity.
+  - f_equal. rewrite !app_length, L0, L1, L10. cbn [length].
+    rewrite !repeat_snoc, !app_assoc, <- !repeat_app. f_equal. f_equal. lia.
+  - exists 0, t'. reflexivity.
+Qed.
